@@ -823,8 +823,23 @@ class TextXMetaModel(DebugPrinter):
                 is_main_model=is_main_model,
             )
 
-        for p in self._model_processors:
-            p(model, self)
+        try:
+            for p in self._model_processors:
+                p(model, self)
+        except:  # noqa
+            # A model rejected by a model processor must not stay cached in
+            # the (global) repository, same as for object processor errors.
+            from textx.model import _abort_model_construction
+            from textx.scoping import (
+                get_included_models,
+                remove_models_from_repositories,
+            )
+
+            models = get_included_models(model)
+            remove_models_from_repositories(models, models)
+            for m in models:
+                _abort_model_construction(m)
+            raise
 
         return model
 
